@@ -20,7 +20,10 @@ Lib/Cbor.v [encode] stands for it and is compared octet by octet with the real
 datagrams by the C13 correspondence run.
 
 FAIL CLOSED: every statement of the function must match the whitelisted shape
-(logging calls are skipped); anything else raises TranslateError, py2coq.py
+(logging calls are skipped); the only names, calls and attributes of ``self``
+allowed are listed in generate() -- in particular any agent state other than
+``self._config.mtu_default`` that the function reads or writes (a cache, a
+counter) makes the target fail; anything else raises TranslateError, py2coq.py
 records the target as failed and leaves the previous Gen file in place.
 '''
 import ast
@@ -156,6 +159,33 @@ def generate(repo_src):
         raise TranslateError('Agent._send_transfer not found')
     if [arg.arg for arg in func.args.args] != ['self', 'item']:
         _fail(func, 'unexpected parameters')
+
+    # ---- the function is a pure function of (item, self._config.mtu_default): any other state it reads or
+    # writes (attributes of self, globals, other calls) is outside what the stateless model can express
+    allowed_self = ('self._config.mtu_default',)
+    allowed_calls = ('len', 'cbor2.dumps', 'item.file.read', 'segments.append')
+    allowed_names = {'self', 'item', 'mtu', 'data', 'segments', 'ext_base', 'ext_base_encsize', 'data_size_encsize',
+                     'remain_size', 'frag_offset', 'ext', 'seg', 'len', 'cbor2', 'ExtensionKey'}
+    for stmt in func.body:
+        if is_logging(stmt):
+            continue
+        for sub in ast.walk(stmt):
+            if isinstance(sub, (ast.Global, ast.Nonlocal, ast.Lambda, ast.FunctionDef, ast.ClassDef, ast.Try, ast.With,
+                                ast.Import, ast.ImportFrom, ast.Delete, ast.Await, ast.NamedExpr)):
+                _fail(sub, 'statement/expression kind outside the whitelist')
+            if isinstance(sub, ast.Name) and sub.id not in allowed_names:
+                _fail(sub, 'name %s outside the whitelist (new state or helper?)' % sub.id)
+            if isinstance(sub, ast.Call) and not is_logging(ast.Expr(value=sub)) and dotted(sub.func) not in allowed_calls:
+                _fail(sub, 'call outside the whitelist')
+    for stmt in func.body:
+        for sub in ast.walk(stmt):
+            if isinstance(sub, ast.Attribute):
+                name = dotted(sub) or ''
+                if name.startswith('self.') and 'logger' not in name.lower():
+                    if not any(ok == name or ok.startswith(name + '.') for ok in allowed_self):
+                        _fail(sub, 'attribute of self outside the whitelist: the function reads or writes agent state')
+                    if not isinstance(sub.ctx, ast.Load):
+                        _fail(sub, 'attribute of self is written')
 
     body = strip(func.body)
     if len(body) != 5:
